@@ -30,6 +30,7 @@ type c41Dial struct {
 
 type c41Plan struct {
 	Concurrency int        `json:"concurrency"`
+	DNSCacheMs  int        `json:"dns_cache_ms"` // entries expire (and are resolved again) while other dials use them
 	Hosts       []c41Host  `json:"hosts"`
 	Callers     [][]c41Dial `json:"callers"`
 }
@@ -37,7 +38,7 @@ type c41Plan struct {
 func init() { scenarios["C41"] = scenC41 }
 
 func scenC41(e *Env) func() {
-	p := &c41Plan{Concurrency: Pick(e, 1, 2, 3, 0)}
+	p := &c41Plan{Concurrency: Pick(e, 1, 2, 3, 0), DNSCacheMs: Pick(e, 3600000, 3600000, 40, 400, 1900)}
 	nh := e.Range(1, 3)
 	for i := 0; i < nh; i++ {
 		h := c41Host{ResolveMs: Pick(e, 0, 0, 5, 300), ResolveErr: e.Chance(8)}
@@ -169,7 +170,7 @@ func c41Run(e *Env, p *c41Plan) {
 		}
 		return e.Net.Dial(tcpAddr("10.41.9.9", pn), addr)
 	}
-	d := &fasthttp.TCPDialer{Concurrency: p.Concurrency, Resolver: &c41Resolver{p}, DNSCacheDuration: time.Hour}
+	d := &fasthttp.TCPDialer{Concurrency: p.Concurrency, Resolver: &c41Resolver{p}, DNSCacheDuration: time.Duration(p.DNSCacheMs) * time.Millisecond}
 	holdBudget := time.Duration(e.Cfg.Holds) * e.Cfg.HoldMax
 	var fsx []func()
 	for ci := range p.Callers {
